@@ -9,6 +9,7 @@ func main() {
 		Groups:     []string{"atom", "con"},
 		Oracles:    txpipe.Oracles{Atomic: true},
 		QuickBound: 1, ThoroughBound: 2,
+		SyncLen: -2, SyncLenThorough: 2,
 		Rule: "Oracle: (i) every published state equals the reference model after some prefix of the committed transactions (write log replayed in commit order), monotonically - no state shows part of a transaction; (ii) Complete()==\"\" iff the transaction's writes are in the final database, every other ending (explicit abort, conflict, timeout, failed completion) leaves no trace; (iii) in every published state Info.Nrows/Size equal the rows reachable through the first index and BtreeNrows+sum(Deltas) equals Nrows (same for size).",
 	})
 }
